@@ -1,8 +1,10 @@
 // Package verif is the harness API of gosym. Inside the symbolic VM every
 // function below is intercepted (its body never runs). The bodies are the
-// native implementation used for replaying a solver counterexample against
-// the real build: values and choices come from the JSON file named by
-// VERIF_REPLAY, a failed assertion prints VERIF-ASSERT-FAIL and exits 3.
+// native implementation used (a) to replay a solver counterexample against
+// the real build and (b) to validate the VM differentially: values and choices
+// come from the JSON file named by VERIF_REPLAY (or loaded with Reset), a
+// failed assertion prints VERIF-ASSERT-FAIL and (outside differential mode)
+// exits 3.
 package verif
 
 import (
@@ -11,6 +13,7 @@ import (
 	"os"
 	"runtime"
 	"strconv"
+	"strings"
 	"sync"
 	"time"
 )
@@ -22,11 +25,12 @@ type replayFile struct {
 }
 
 var (
-	once   sync.Once
-	rf     replayFile
-	mu     sync.Mutex
-	ctr    = map[string]int{}
-	Failed []string
+	once sync.Once
+	rf   replayFile
+	mu   sync.Mutex
+	ctr  = map[string]int{}
+	// Diff mode: assertion failures are logged, not fatal.
+	Diff bool
 )
 
 func load() {
@@ -35,14 +39,28 @@ func load() {
 		if p == "" {
 			return
 		}
-		b, err := os.ReadFile(p)
-		if err != nil {
-			panic(err)
-		}
-		if err := json.Unmarshal(b, &rf); err != nil {
-			panic(err)
-		}
+		loadFile(p)
 	})
+}
+
+func loadFile(p string) {
+	b, err := os.ReadFile(p)
+	if err != nil {
+		panic(err)
+	}
+	rf = replayFile{}
+	if err := json.Unmarshal(b, &rf); err != nil {
+		panic(err)
+	}
+}
+
+// Reset loads another replay file and forgets all name counters.
+func Reset(path string) {
+	once.Do(func() {})
+	mu.Lock()
+	ctr = map[string]int{}
+	mu.Unlock()
+	loadFile(path)
 }
 
 func uniq(name string) string {
@@ -66,13 +84,13 @@ func val(name string) uint64 {
 	return n
 }
 
-func Bool(name string) bool            { return val(name) != 0 }
-func Byte(name string) byte            { return byte(val(name)) }
-func Int(name string) int              { return int(val(name)) }
-func Uint16(name string) uint16        { return uint16(val(name)) }
-func Uint32(name string) uint32        { return uint32(val(name)) }
-func Uint64(name string) uint64        { return val(name) }
-func Int64(name string) int64          { return int64(val(name)) }
+func Bool(name string) bool              { return val(name) != 0 }
+func Byte(name string) byte              { return byte(val(name)) }
+func Int(name string) int                { return int(val(name)) }
+func Uint16(name string) uint16          { return uint16(val(name)) }
+func Uint32(name string) uint32          { return uint32(val(name)) }
+func Uint64(name string) uint64          { return val(name) }
+func Int64(name string) int64            { return int64(val(name)) }
 func Duration(name string) time.Duration { return time.Duration(val(name)) }
 
 // Bytes returns n arbitrary bytes (n concrete).
@@ -99,25 +117,85 @@ func Param(name string, def int) int {
 	return def
 }
 
+type assumeFalse struct{}
+
 func Assume(c bool) {
 	if !c {
+		if Diff {
+			fmt.Println("VERIF-ASSUME-FALSE")
+			panic(assumeFalse{})
+		}
 		fmt.Println("VERIF-ASSUME-FALSE")
 		os.Exit(4)
 	}
 }
 
+// IsAssumeFalse recognises the panic Assume raises in differential mode.
+func IsAssumeFalse(r interface{}) bool { _, ok := r.(assumeFalse); return ok }
+
 func Assert(c bool, label string) {
 	if !c {
 		fmt.Println("VERIF-ASSERT-FAIL " + label)
-		os.Exit(3)
+		if !Diff {
+			os.Exit(3)
+		}
 	}
 }
 
 // Fail records an unconditional violation.
 func Fail(label string) { Assert(false, label) }
 
-func Reach(label string)                  {}
-func Observe(tag string, v ...interface{}) {}
+func Reach(label string) {}
+
+// Observe logs values for the differential comparison of the VM with the
+// native run. Supported: int kinds, bool, string, []byte, error, nil.
+func Observe(tag string, v ...interface{}) {
+	var sb strings.Builder
+	sb.WriteString("VERIF-OBSERVE ")
+	sb.WriteString(tag)
+	for _, x := range v {
+		sb.WriteString(" ")
+		sb.WriteString(fmtObs(x))
+	}
+	fmt.Println(sb.String())
+}
+
+func fmtObs(x interface{}) string {
+	switch y := x.(type) {
+	case nil:
+		return "nil"
+	case error:
+		return "err"
+	case []byte:
+		var sb strings.Builder
+		sb.WriteString("[")
+		for i, b := range y {
+			if i > 0 {
+				sb.WriteString(" ")
+			}
+			sb.WriteString(strconv.Itoa(int(b)))
+		}
+		sb.WriteString("]")
+		return sb.String()
+	case bool:
+		return strconv.FormatBool(y)
+	case string:
+		return strconv.Quote(y)
+	case int:
+		return strconv.FormatInt(int64(y), 10)
+	case int64:
+		return strconv.FormatInt(y, 10)
+	case uint16:
+		return strconv.FormatInt(int64(y), 10)
+	case uint32:
+		return strconv.FormatInt(int64(y), 10)
+	case byte:
+		return strconv.FormatInt(int64(y), 10)
+	case time.Duration:
+		return strconv.FormatInt(int64(y), 10)
+	}
+	return fmt.Sprintf("?%T", x)
+}
 
 // Concurrency / time (VM semantics; native: best effort).
 type G struct{ done chan struct{} }
@@ -137,17 +215,17 @@ func (g *G) Done() bool {
 }
 func (g *G) Blocked() bool { Quiesce(); return !g.Done() }
 
-func Quiesce()                 { time.Sleep(20 * time.Millisecond) }
-func RunOutClock()             { time.Sleep(300 * time.Millisecond) }
-func FireTimer() bool          { time.Sleep(50 * time.Millisecond); return false }
-func PendingTimers() int       { return 0 }
-func Now() time.Duration       { return 0 }
-func LiveGoroutines() int      { return runtime.NumGoroutine() }
-func AllocBytes() int          { return 0 }
-func Owned(m interface{})      {}
-func Concretize(x int) int     { return x }
-func NoPreempt(f func())       { f() }
-func InVM() bool               { return false }
+func Quiesce()             { time.Sleep(20 * time.Millisecond) }
+func RunOutClock()         { time.Sleep(300 * time.Millisecond) }
+func FireTimer() bool      { time.Sleep(50 * time.Millisecond); return false }
+func PendingTimers() int   { return 0 }
+func Now() time.Duration   { return 0 }
+func LiveGoroutines() int  { return runtime.NumGoroutine() }
+func AllocBytes() int      { return 0 }
+func Owned(m interface{})  {}
+func Concretize(x int) int { return x }
+func NoPreempt(f func())   { f() }
+func InVM() bool           { return false }
 
 // Non-short-circuit boolean combinators (build one formula instead of forking paths).
 func And(a, b bool) bool     { return a && b }
@@ -177,9 +255,6 @@ func BytesEq(a, b []byte) bool {
 	return true
 }
 
-// FireTimerN fires the i-th pending timer (in creation order) after quiescing.
-func FireTimerN(i int) bool { time.Sleep(50 * time.Millisecond); return false }
-
 // IteByte selects without forking.
 func IteByte(c bool, a, b byte) byte {
 	if c {
@@ -187,6 +262,9 @@ func IteByte(c bool, a, b byte) byte {
 	}
 	return b
 }
+
+// FireTimerN fires the i-th pending timer (in creation order) after quiescing.
+func FireTimerN(i int) bool { time.Sleep(50 * time.Millisecond); return false }
 
 // Released reports whether the library has returned the message to its pool
 // (VM ledger; natively unknown).
